@@ -225,6 +225,16 @@ pub fn c05(cx: &RunCtx) {
             }
         }
     }
+    // exponents with three decimal digits (k/1000 up to 20) over the bases for which a special-purpose routine
+    // exists (exp2, exp10, exp, sqrt / cbrt chains), in both spellings of the power and with the base computed
+    for k in 1..=20000 {
+        let x = format!("{}", k as f64 / 1000.0);
+        for b in ["2", "10", "e", "3", "0.5", "(1+1)", "4"] {
+            inputs.push(format!("{}^{}", b, x));
+            inputs.push(format!("{}^(-{})", b, x));
+        }
+        inputs.push(format!("pow(2,{})", x));
+    }
     crate::fam::run_list::<F64>(cx, "E-FUNC f64 operations over operand ranges (bit for bit)", &inputs, &[F64::default_at()], &kinds);
 }
 
